@@ -11,11 +11,13 @@ use crate::SlinkyError;
 pub(crate) fn capitalize(s: &str) -> String {
     // TODO: there must be a better way to Capitalize a string
 
-    if s.is_empty() {
-        return "".to_string();
-    }
+    let mut chars = s.chars();
 
-    s.chars().next().expect("").to_uppercase().to_string() + &s[1..]
+    match chars.next() {
+        None => "".to_string(),
+        // `chars.as_str()` is the remainder after the first character, whatever its width in bytes
+        Some(first) => first.to_uppercase().to_string() + chars.as_str(),
+    }
 }
 
 pub(crate) fn create_file_and_parents(path: &Path) -> Result<File, SlinkyError> {
